@@ -292,6 +292,11 @@ class QintImp(int, Qtype):
         if not issubclass(tright[0], Qtype):
             raise TypeErrorException(tright[0], Qtype)
 
+        if cls.is_const(tright):
+            m = cast(int, cast(Qtype, tright[0]).from_bool(tright[1]))
+            if m == 0 or m & (m - 1) != 0:
+                raise Exception(f"Mod works only with 2^n values: {m} given")
+
         tval = tright[0].sub(tright, tright[0].const(1))
         return tleft[0].bitwise_and(tleft, tval)
 
